@@ -197,9 +197,12 @@ def history(rnd, tm, Wrench, rec, nmax):
                     if op == 'ik_in':
                         rel = sph.rel_pose(rnd, h)
                     else:
-                        kind = 'mirrored' if special == 'ik_mirrored' else rnd.choice(['far', 'tilt', 'below', 'short', 'twist'])
+                        kind = 'mirrored' if special == 'ik_mirrored' else rnd.choice(['far', 'tilt', 'tilt_diag', 'tilt_diag', 'below', 'short', 'twist'])
                         rel = {'far': [rnd.uniform(-1, 1) * h, rnd.uniform(-1, 1) * h, h * rnd.uniform(1.3, 3), 0, 0, 0],
                                'tilt': [0, 0, h, rnd.uniform(1.0, 2.5), rnd.uniform(-1, 1), 0],
+                               # tilted about an axis on a diagonal of the plate (x = +-y): between 60 and 90 degrees R00 and R11 stay above 1/2 while R22 does not
+                               'tilt_diag': (lambda th_: [rnd.uniform(-0.3, 0.3) * h, rnd.uniform(-0.3, 0.3) * h, h * rnd.uniform(0.7, 1.0),
+                                                          th_ / math.sqrt(2) * rnd.choice([-1, 1]), th_ / math.sqrt(2) * rnd.choice([-1, 1]), 0])(rnd.uniform(1.1, 1.5)),
                                'below': [0.1 * h, 0, -h * rnd.uniform(0.3, 1), 0, rnd.uniform(-0.3, 0.3), 0],
                                'mirrored': [rnd.uniform(-0.1, 0.1) * h, rnd.uniform(-0.1, 0.1) * h, -h * rnd.uniform(0.85, 1.1), rnd.uniform(-0.1, 0.1), rnd.uniform(-0.1, 0.1), 0],
                                'short': [0, 0, h * rnd.uniform(0.1, 0.6), 0, 0, rnd.uniform(-1, 1)],
